@@ -16,6 +16,7 @@
 import Genshi.Lemmas.Output
 import Genshi.Lemmas.OutputFlatten
 import Genshi.Lemmas.OutputWs
+import Genshi.Lemmas.OutputWsDoctype
 import Genshi.Model.OutputPipeline
 namespace Genshi.Props.C09
 open Genshi Genshi.Output
@@ -181,16 +182,17 @@ theorem xml_namespace_const :
 
 /-! ### whitespace stripping -/
 
-/-- the serializer with a `WhitespaceFilter` whose text normalisation is `norm` (no doctype option) -/
-def renderWith (norm : Bool → Str → Str) (m : Method) (cache dropd : Bool) (s : Stream) : Option Str :=
+/-- the serializer with a `WhitespaceFilter` whose text normalisation is `norm` -/
+def renderWith (norm : Bool → Str → Str) (m : Method) (cache dropd : Bool) (dt : Option DocTypeT)
+    (s : Stream) : Option Str :=
   (flatten cache (flatInit m) (wsFilterG norm (wsCfg m) {} (emptyTag none s))).map
-    fun fs => (loop m ⟨dropd⟩ cache {} fs).flatten
+    fun fs => (loop m ⟨dropd⟩ cache {} (withDoctype dt fs)).flatten
 
 /-- `strip_whitespace=True` is: every maximal run of adjacent TEXT events goes through `stdNorm`
     (`wsNorm` outside preserved space, identity inside) — by construction of the filter. -/
-theorem strip_is_norm_of_runs (m : Method) (cache dropd : Bool) (s : Stream) :
-    render m { strip := true, cache := cache, doctype := none, dropXmlDecl := dropd } s =
-    renderWith stdNorm m cache dropd s := by
+theorem strip_is_norm_of_runs (m : Method) (cache dropd : Bool) (dt : Option DocTypeT) (s : Stream) :
+    render m { strip := true, cache := cache, doctype := dt, dropXmlDecl := dropd } s =
+    renderWith stdNorm m cache dropd dt s := by
   simp only [render, chunks, filtered, preFlat, wsFilter, renderWith, Option.map_map, ↓reduceIte]
   congr 1
 
@@ -249,21 +251,22 @@ def NoescapeAgreeS (m : Method) (s : Stream) : Prop :=
 
 /-- Apart from normalising white space the filter is unobservable: with the merge-only filter
     (adjacent text merged, pre-escaped, wrapped in Markup, script/CDATA text marked raw — but no
-    normalisation) the output is the output without any filter.  Unconditional for xml and xhtml;
-    for html on streams whose script/style elements are un-namespaced or XHTML (`NoescapeAgreeS`,
-    see `strip_namespace_witness`).  Partial: stated without a doctype option. -/
-theorem merge_only_unobservable_partial (m : Method) (cache dropd : Bool) (s : Stream)
+    normalisation) the output is the output without any filter, for every method, cache setting,
+    doctype option and `drop_xml_decl`.  Unconditional for xml and xhtml; for html on streams whose
+    script/style elements are un-namespaced or XHTML (`NoescapeAgreeS`, see
+    `strip_namespace_witness`) — hence `_partial`. -/
+theorem merge_only_unobservable_partial (m : Method) (cache dropd : Bool) (dt : Option DocTypeT) (s : Stream)
     (hag : NoescapeAgreeS m s) :
-    renderWith idNorm m cache dropd s =
-    render m { strip := false, cache := cache, doctype := none, dropXmlDecl := dropd } s := by
-  have hc : ∀ c : Bool, renderWith idNorm m c dropd s = renderWith idNorm m false dropd s := by
+    renderWith idNorm m cache dropd dt s =
+    render m { strip := false, cache := cache, doctype := dt, dropXmlDecl := dropd } s := by
+  have hc : ∀ c : Bool, renderWith idNorm m c dropd dt s = renderWith idNorm m false dropd dt s := by
     intro c; cases c
     · rfl
     · simp only [renderWith, flatten_cache_irrelevant, serCache_eq_serNoCache]
   rw [hc cache]
-  have hr := render_cache_irrelevant m false none dropd s
-  have hr2 : render m { strip := false, cache := cache, doctype := none, dropXmlDecl := dropd } s =
-      render m { strip := false, cache := false, doctype := none, dropXmlDecl := dropd } s := by
+  have hr := render_cache_irrelevant m false dt dropd s
+  have hr2 : render m { strip := false, cache := cache, doctype := dt, dropXmlDecl := dropd } s =
+      render m { strip := false, cache := false, doctype := dt, dropXmlDecl := dropd } s := by
     cases cache
     · rfl
     · exact hr
@@ -277,29 +280,38 @@ theorem merge_only_unobservable_partial (m : Method) (cache dropd : Bool) (s : S
       · exact hag t a h hm
       · cases h
     | _ => trivial
-  have := wsMerge_tailOut m ⟨dropd⟩ (emptyTag none s) {} (flatInit m) {}
-    ⟨rfl, fun _ => rfl, fun _ => rfl⟩ hag'
-  simp only [tailOut, bufOut, List.flatMap_nil, List.nil_append, Option.map_map] at this
-  simp only [renderWith, render, chunks, filtered, preFlat, withDoctype, Option.map_map, Bool.false_eq_true,
-    ↓reduceIte]
-  rw [this]
-  congr 1
+  cases dt with
+  | none =>
+    have := wsMerge_tailOut m ⟨dropd⟩ (emptyTag none s) {} (flatInit m) {}
+      ⟨rfl, fun _ => rfl, fun _ => rfl⟩ hag'
+    simp only [tailOut, bufOut, List.flatMap_nil, List.nil_append, Option.map_map] at this
+    simp only [renderWith, render, chunks, filtered, preFlat, withDoctype, Option.map_map, Bool.false_eq_true,
+      ↓reduceIte]
+    rw [this]
+    congr 1
+  | some d =>
+    have := wsMerge_doctype m ⟨dropd⟩ d (emptyTag none s) (flatInit m) hag'
+    simp only [outD] at this
+    simp only [renderWith, render, chunks, filtered, preFlat, withDoctype, Option.map_map, Bool.false_eq_true,
+      ↓reduceIte]
+    rw [this]
+    congr 1
 
 /-- Output produced with whitespace stripping differs from output without it only in that every
     text run outside preserved space is replaced by its white-space normal form, which deletes
     nothing but blanks, tabs and line feeds.
-    Full statement (not proved): the same with a doctype option, for html without the
-    `NoescapeAgreeS` hypothesis on namespace-free / XHTML streams only, and the corollary
-    `normWs (render strip) = normWs (render nostrip)` for the global normal form. -/
-theorem strip_only_whitespace_partial (m : Method) (cache dropd : Bool) (s : Stream)
+    Full statement (not proved): for html without the `NoescapeAgreeS` hypothesis (false there, see
+    the witness), and the corollary `normWs (render strip) = normWs (render nostrip)` for the global
+    normal form (checked by the oracle with Python's `re` on every generated stream). -/
+theorem strip_only_whitespace_partial (m : Method) (cache dropd : Bool) (dt : Option DocTypeT) (s : Stream)
     (hag : NoescapeAgreeS m s) :
-    render m { strip := true, cache := cache, doctype := none, dropXmlDecl := dropd } s =
-      renderWith stdNorm m cache dropd s ∧
-    render m { strip := false, cache := cache, doctype := none, dropXmlDecl := dropd } s =
-      renderWith idNorm m cache dropd s ∧
+    render m { strip := true, cache := cache, doctype := dt, dropXmlDecl := dropd } s =
+      renderWith stdNorm m cache dropd dt s ∧
+    render m { strip := false, cache := cache, doctype := dt, dropXmlDecl := dropd } s =
+      renderWith idNorm m cache dropd dt s ∧
     (∀ p x, stdNorm p x = (if p then idNorm p x else wsNorm x)) ∧
     (∀ x, (wsNorm x).Sublist x ∧ (wsNorm x).filter (fun c => !wsChar c) = x.filter (fun c => !wsChar c)) :=
-  ⟨strip_is_norm_of_runs m cache dropd s, (merge_only_unobservable_partial m cache dropd s hag).symm,
+  ⟨strip_is_norm_of_runs m cache dropd dt s, (merge_only_unobservable_partial m cache dropd dt s hag).symm,
    fun _ _ => rfl, Output.wsNorm_deletes_only_ws⟩
 
 theorem wsNorm_deletes_only_ws (x : Str) :
@@ -333,6 +345,6 @@ theorem noescape_agree_html_vocab (t : QName) (h : (t.ns = [] ∨ t.ns = xhtmlNs
 theorem strip_namespace_witness :
     let s : Stream := [.start ⟨['u'], ['s','c','r','i','p','t']⟩ [], .text ['<'] false,
                        .end_ ⟨['u'], ['s','c','r','i','p','t']⟩]
-    renderWith idNorm .html false true s ≠ render .html { strip := false, cache := false } s := by decide
+    renderWith idNorm .html false true none s ≠ render .html { strip := false, cache := false } s := by decide
 
 end Genshi.Props.C09
